@@ -161,6 +161,13 @@ def evaluate_tag(prog, cls: str):
                 e = e.args[0]
             if elem_eval(e) and isinstance(g.target, ast.Name) and src(e.func.value) == g.target.id:
                 slot = _slot_of_iter(g.iter, iters)
+                if slot is None and isinstance(g.iter, ast.Name):
+                    # a local that holds the element list of one slot, whichever container kind the slot has:
+                    #   elements = self.v._variables  /  elements = self.v._expressions   (one per branch)
+                    cands = [c.value for c in walk_local(m.node, include_self=False) if isinstance(c, (ast.Assign, ast.AnnAssign)) and getattr(c, "value", None) is not None and src(c.targets[0] if isinstance(c, ast.Assign) else c.target) == g.iter.id]
+                    slots_ = {_slot_of_iter(c, iters) for c in cands}
+                    if cands and len(slots_) == 1:
+                        slot = next(iter(slots_))
                 if slot:
                     return ("VEC", slot)
         if isinstance(n, ast.Call) and isinstance(n.func, ast.Attribute) and n.func.attr == "evaluate" and n.args and src(n.args[0]) == valparam:
